@@ -156,6 +156,14 @@ claimed["C18"] = dict(
          "The crash monitor shows no reachable panic on these inputs. The IP-literal grammar itself is not symbolic.",
     design="5 C18", technique=T)
 
+claimed["C06"] = dict(
+    text="Bounded symbolic execution of every read entry point of the real code while the writer lock is held by a write "
+         "transaction parked at each stage of its life (mutex model with an owner): for every host, path and pattern within "
+         "the bounds and every feasible path of the read code, no Lock on a held mutex is reached (it would be reported as "
+         "a blocked-forever violation with its witness); conversely a second writer does block. This is the behavioural "
+         "counterpart, over all inputs in the bound, of the call-graph argument that read paths never take the writer lock.",
+    design="5 C06", technique="bounded symbolic execution of go/ssa + SMT with a mutex-owner (blocked) monitor; native replay by timeout")
+
 reasons = {}
 
 ids = [json.loads(l)["id"] for l in open("/verif/properties.jsonl")]
